@@ -344,7 +344,7 @@ pub fn run_c03(ctx: &Ctx) -> i32 {
          by (inputs, tokenizer, comparator).",
     );
     let tier = ctx.tier();
-    let n = tier.pick(150_000, 6_000_000);
+    let n = tier.pick(450_000, 6_000_000);
     let big_every = 400;
     par_cases(ctx, n, threads(), |i, cs, rng| {
         let big = i % big_every == 7;
@@ -369,7 +369,7 @@ pub fn run_c03(ctx: &Ctx) -> i32 {
     });
     // Second-process determinism on a prefix of the same cases.
     if ctx.args.replay.is_none() {
-        let k = tier.pick(3000, 50_000);
+        let k = tier.pick(9000, 50_000);
         let mine = digest(ctx.seed(), k);
         match std::process::Command::new(std::env::current_exe().unwrap())
             .args(["C03", "quick", "--digest", &k.to_string()])
